@@ -280,6 +280,8 @@ def connect(R):
         and canon(R, g, bn, arg_of(bc, bf, 'port', bound=False)) == 'self.websocket.port'
     R.ob('C19.connect', 'CONNECT names the target host and port', ok, 'build_request(%s)' % ', '.join(U(a) for a in bc.args),
          func=f, node=bc)
+    from . import C10 as _C10
+    _C10.target_port(R, 'C19.connect')       # ... and websocket.port is the URL's port (an explicit one for wss too)
     sends = ext_calls(R, g, {'socket.sendall', 'socket.send'})
     ok = len(sends) == 1
     if ok:
